@@ -24,23 +24,23 @@ type Violation struct {
 
 // Result is what one harness process (one shard) reports.
 type Result struct {
-	Harness     string         `json:"harness"`
-	Evaluations int64          `json:"evaluations"`
-	States      int64          `json:"states"`
-	Transitions int64          `json:"transitions"`
-	Validated   int64          `json:"traces_validated_against_impl"`
-	Distinct    []string       `json:"distinct_keys,omitempty"` // hashes of distinct non-trivial cases (merged by the orchestrator)
-	DistinctN   int64          `json:"distinct_nontrivial"`     // used when keys are too many to ship
-	Rule        string         `json:"rule"`
-	Samples     []any          `json:"samples"`
-	Exhaustive  bool           `json:"exhaustive"`
-	Bounds      map[string]any `json:"bounds"`
-	Caps        []string       `json:"caps_hit"`
-	Assumptions []string       `json:"assumptions"`
+	Harness     string           `json:"harness"`
+	Evaluations int64            `json:"evaluations"`
+	States      int64            `json:"states"`
+	Transitions int64            `json:"transitions"`
+	Validated   int64            `json:"traces_validated_against_impl"`
+	Distinct    []string         `json:"distinct_keys,omitempty"` // hashes of distinct non-trivial cases (merged by the orchestrator)
+	DistinctN   int64            `json:"distinct_nontrivial"`     // used when keys are too many to ship
+	Rule        string           `json:"rule"`
+	Samples     []any            `json:"samples"`
+	Exhaustive  bool             `json:"exhaustive"`
+	Bounds      map[string]any   `json:"bounds"`
+	Caps        []string         `json:"caps_hit"`
+	Assumptions []string         `json:"assumptions"`
 	Counters    map[string]int64 `json:"counters"`
-	Violations  []Violation    `json:"violations"`
-	CheckErrors []string       `json:"check_errors"`
-	WallS       float64        `json:"wall_s"`
+	Violations  []Violation      `json:"violations"`
+	CheckErrors []string         `json:"check_errors"`
+	WallS       float64          `json:"wall_s"`
 
 	distinct map[string]struct{}
 	vioSeen  map[string]int
